@@ -211,6 +211,8 @@ static void prop_cycle_block(Tape &t, Ctx &c) {
     double alpha = t.b() ? static_cast<double>(t.u(-3, 3)) : t.slogu(1e-3, 1e3);
     double beta = t.b() ? static_cast<double>(t.u(-3, 3)) : t.slogu(1e-3, 1e3);
     int kexp = static_cast<int>(t.u(0, 40)) - 20; if (kexp == 0) kexp = 1;
+    // npre / npost = 0 (V(0,nu), W(0,nu), V(nu,0) cycles; npre + npost >= 1).  Read last so that older saved tapes keep their meaning.
+    { int z = static_cast<int>(t.u(0, 7)); if (z >= 4 && z <= 6) cfg.npre = 0; else if (z == 7) cfg.npost = 0; }
 
     c.desc << "cycle<block2x2> " << kind << " " << gm.g.family << " blocks=" << nb << " nnz=" << A.nnz() << " contrast=" << gm.mi.contrast << " aniso=" << gm.mi.aniso
            << " | " << cfg.str() << " | alpha=" << alpha << " beta=" << beta << " k=" << kexp;
@@ -230,7 +232,7 @@ static void prop_cycle_block(Tape &t, Ctx &c) {
     c.label("kind:" + kind);
     c.label(std::string("coars:") + coars_name[cfg.coars]); c.label(std::string("relax:") + relax_name[cfg.relax]);
     c.label("levels=" + std::to_string(std::min<size_t>(levels, 6)));
-    c.label(cfg.ncycle == 1 ? "V-cycle" : "W-cycle"); c.label(cfg.npre == cfg.npost ? "npre==npost" : "npre!=npost");
+    c.label(cfg.ncycle == 1 ? "V-cycle" : "W-cycle"); c.label(cfg.npre == cfg.npost ? "npre==npost" : "npre!=npost"); if (cfg.npre == 0) c.label("npre=0,ncycle=" + std::to_string(cfg.ncycle) + ",pre_cycles=" + std::to_string(cfg.pre_cycles)); if (cfg.npost == 0) c.label("npost=0");
     c.nontrivial = levels >= 2;
 
     if (cfg.coars != AGG) {
